@@ -130,7 +130,7 @@ func record(ms []*mrule, passes map[string][]adm, res string, now uint64, b uint
 }
 
 func TestSequential(t *testing.T) {
-	hx.Check(t, hx.N{Quick: 5000, Thorough: 30000}, func(t *rapid.T, c *hx.Case) {
+	hx.Check(t, hx.N{Quick: 30000, Thorough: 300000}, func(t *rapid.T, c *hx.Case) {
 		hx.Reset(hx.Epoch + uint64(rapid.IntRange(0, 20000).Draw(t, "t0")))
 		ms := drawRules(t, c, 3)
 		load(t, ms)
@@ -222,7 +222,7 @@ func TestSequential(t *testing.T) {
 // chain.checked yield separates the decision (rule check) from the recording (statistic phase);
 // the order of Begin / Finish / clock ticks is drawn.
 func TestAdmissionPathInterleavings(t *testing.T) {
-	hx.Check(t, hx.N{Quick: 3000, Thorough: 20000}, func(t *rapid.T, c *hx.Case) {
+	hx.Check(t, hx.N{Quick: 18000, Thorough: 200000}, func(t *rapid.T, c *hx.Case) {
 		hx.Reset(hx.Epoch + uint64(rapid.IntRange(0, 999).Draw(t, "t0")))
 		s := sched.New("chain.checked")
 		defer s.Close()
